@@ -174,3 +174,140 @@ def permuted(rnd, req):
     r['knownAlternatives'] = ka
     r['choseToMake'] = ch
     return r
+
+
+# ---- ELECTRE III --------------------------------------------------------------------------------
+def electre_params(rnd, crits, custom_dist_prob=0.3):
+    ec = {}
+    for c in crits:
+        k = rnd.choice([0.5, 1.0, 2.0, 3.0, rnd.uniform(0.1, 4)])
+        pattern = rnd.choice(['none', 'q', 'p', 'qp', 'pv', 'qpv', 'qpv', 'qpv'])
+        q = rnd.choice([0.25, 0.5, 1.0])
+        p = q + rnd.choice([0.25, 0.5, 1.0, 2.0])
+        v = p + rnd.choice([0.5, 1.0, 3.0])
+        e = {'k': k}
+        if 'q' in pattern:
+            e['q'] = {'a': 0, 'b': q}
+        if 'p' in pattern:
+            e['p'] = {'a': 0, 'b': p}
+        if 'v' in pattern:
+            e['v'] = {'a': 0, 'b': v}
+        ec[c['id']] = e
+    mp = {'electreCriteria': ec}
+    if rnd.random() < custom_dist_prob:
+        mp['electreDistillation'] = rnd.choice([{'a': -0.15, 'b': 0.3}, {'a': -0.25, 'b': 0.5}, {'a': 0, 'b': 0.125},
+                                                {'a': -0.1, 'b': 0.1}, {'a': 0, 'b': 0}, {'a': -0.5, 'b': 0.5}])
+    return mp
+
+
+def electre_request(rnd, n_alts=None, n_crits=None, style=None):
+    crits = gen_criteria(rnd, n=n_crits or rnd.choice([1, 2, 2, 3, 4]))
+    cids = [c['id'] for c in crits]
+    alts = gen_alternatives(rnd, cids, n=n_alts, style=style or rnd.choice(['posgrid', 'grid', 'posgrid', 'real']))
+    return {'preferenceFunction': 'electreIII', 'knownAlternatives': alts, 'choseToMake': gen_chose(rnd, alts),
+            'criteria': crits, 'methodParameters': electre_params(rnd, crits), 'biases': [],
+            'biasApplyRandomSeed': rnd.randint(0, 1000)}
+
+
+# ---- heuristics ---------------------------------------------------------------------------------
+def current_choice(rnd, alts, chose):
+    """absent / considered / known-but-not-considered"""
+    r = rnd.random()
+    others = [a['id'] for a in alts if a['id'] not in chose]
+    if r < 0.35:
+        return None
+    if r < 0.7 or not others:
+        return rnd.choice(chose)
+    return rnd.choice(others)
+
+
+def level_params(rnd, crits, alts, increasing, explicit_prob=0.35):
+    """(function, params) for a level source of the given family"""
+    if rnd.random() < explicit_prob:
+        n = rnd.randint(0, 4)
+        ths = []
+        for i in range(n):
+            t = {}
+            for c in crits:
+                lo, hi = observed_range(alts, c['id'])
+                t[c['id']] = rnd.choice([lo, hi, (lo + hi) / 2, lo + (hi - lo) * rnd.randint(0, 4) / 4.0, lo - 1, hi + 1])
+            if rnd.random() < 0.1:
+                t['undeclared'] = 1.0
+            ths.append(t)
+        return 'thresholds', {'thresholds': ths}
+    dyadic = rnd.random() < 0.5
+    if dyadic:
+        coef = rnd.choice([0.25, 0.5, 0.125, 0.75])
+        mn = rnd.choice([0.0, 0.25, 0.5, 0.125]) if increasing else rnd.choice([0.25, 0.5, 0.125, 0.0625])
+        mx = rnd.choice([0.5, 0.75, 1.0, 0.25])
+    else:
+        coef = rnd.choice([0.1, 0.2, 0.3, 0.45, 0.9, 0.05, round(rnd.uniform(0.05, 0.95), 3)])
+        mn = round(rnd.uniform(0.0 if increasing else 0.05, 0.6), 2)
+        mx = round(rnd.uniform(0.3, 1.0), 2)
+    if not increasing and mn <= 0:
+        mn = 0.125
+    mul = rnd.random() < 0.5
+    fn = 'idealMultipliedCoefficient' if mul else ('idealAdditiveCoefficient' if increasing else 'idealSubtractiveCoefficient')
+    return fn, {'coefficient': coef, 'minValue': mn, 'maxValue': mx}
+
+
+def heuristic_request(rnd, method=None, n_alts=None, n_crits=None, distinct_weights=False, style=None):
+    method = method or rnd.choice(HEURISTICS)
+    crits = gen_criteria(rnd, n=n_crits or rnd.choice([1, 2, 2, 3, 3, 4]))
+    cids = [c['id'] for c in crits]
+    alts = gen_alternatives(rnd, cids, n=n_alts or rnd.choice([1, 2, 3, 3, 4, 4, 5, 6]),
+                            style=style or rnd.choice(['posgrid', 'grid', 'near', 'posgrid', 'real']))
+    add_ranges(rnd, crits, alts, prob=0.3)
+    chose = gen_chose(rnd, alts, all_prob=0.4)
+    mp = {'randomSeed': rnd.choice([0, 1, 7, 42, 12345, rnd.randint(-5, 10 ** 6)]),
+          'randomAlternativesOrdering': rnd.random() < 0.4}
+    if method == 'majorityHeuristic':
+        mp['weights'] = weights_for(rnd, cids)
+        cc = current_choice(rnd, alts, chose)
+        if cc is not None:
+            mp['currentChoice'] = cc
+        dr = rnd.choice([None, 'allow', 'current', 'newer', 'random', 'random'])
+        if dr:
+            mp['drawResolution'] = dr
+    elif method == 'aspectEliminationHeuristic':
+        if distinct_weights or rnd.random() < 0.8:
+            ws = rnd.sample([0.25, 0.5, 1.0, 1.5, 2.0, 3.0, 0.125, 5.0], len(cids))
+            mp['weights'] = dict(zip(cids, ws))
+        else:
+            mp['weights'] = weights_for(rnd, cids, 'ties')
+        fn, p = level_params(rnd, crits, alts, increasing=True)
+        mp['function'], mp['params'] = fn, p
+    else:
+        cc = current_choice(rnd, alts, chose)
+        if cc is not None:
+            mp['currentChoice'] = cc
+        fn, p = level_params(rnd, crits, alts, increasing=False)
+        mp['function'], mp['params'] = fn, p
+    return {'preferenceFunction': method, 'knownAlternatives': alts, 'choseToMake': chose, 'criteria': crits,
+            'methodParameters': mp, 'biases': [], 'biasApplyRandomSeed': rnd.randint(0, 1000)}
+
+
+def any_request(rnd, method=None):
+    method = method or rnd.choice(METHODS)
+    if method in UTILITY:
+        return utility_request(rnd, method)
+    if method == 'electreIII':
+        return electre_request(rnd)
+    return heuristic_request(rnd, method)
+
+
+def seeds_of(req):
+    """every seed a request can make the code draw from"""
+    s = {int(req.get('biasApplyRandomSeed', 0) or 0)}
+    mp = req.get('methodParameters') or {}
+    s.add(int(mp.get('randomSeed', 0) or 0))
+    for b in req.get('biases') or []:
+        p = b.get('props') if isinstance(b.get('props'), dict) else {}
+        base = int(p.get('randomSeed', 0) or 0)
+        s.add(base)
+        nb = int(p.get('newCriterionRandomSeed', 0) or 0)
+        s.add(nb)
+        for i in range(0, 6):
+            s.add(base + i)
+            s.add(nb + i)
+    return s
